@@ -78,7 +78,9 @@ def solutionSwB (P : Program) (val : Node → Option Val) : Bool :=
 /-- Boolean form of the structural part of `SwP`: no one-of, no recurrent destination, decision nodes are ordinary -/
 def swPB (P : Program) : Bool :=
   P.g.nodes.all (fun n => !P.g.isOneofHead n && (P.g.attr n).startNode.isNone) &&
-  P.g.edges.all (fun e => !e.isSwitch || !P.g.isSwitch e.u)
+  P.g.edges.all (fun e => !e.isSwitch || !P.g.isSwitch e.u) &&
+  P.g.edges.all (fun e => !P.g.isSwitch e.v || e.isSwitch || e.case.isSome) &&
+  P.g.nodes.contains P.g.output && P.g.nodes.all (fun n => !(P.g.attr n).isOneofChild)
 
 /-- one round of the dataflow equations (with switches) over the nodes of the graph -/
 def eqRound (P : Program) (val : Node → Option Val) : List (Node × Option Val) :=
